@@ -1503,6 +1503,75 @@ def signature_cache_cases(ctx, count, corpus=True, rng=None):
     ctx.compare("ServermapUpdater._got_signature_one_share: entered / rejected per share", cases, impls, ctx.model(lines))
 
 
+# ----------------------------------------------------------------------------- what the signature covers / what is in the version identity
+
+def header_field_cases(ctx):
+    """Per share field (names from the driver): is its byte range inside the signed prefix of the real
+    layout; is it a component of the real verinfo; and what a real map update by a fresh read-cap node
+    does with a share in which one bit of exactly that field was flipped (rejected / entered under the
+    identity of the intact shares / entered under an identity of its own).  SDMF and MDMF."""
+    import grid
+    from allmydata.mutable.publish import MutableData
+    from allmydata.mutable.common import MODE_CHECK
+    from allmydata.mutable.layout import SIGNED_PREFIX_LENGTH, MDMFHEADERWITHOUTOFFSETSSIZE
+    from allmydata.interfaces import SDMF_VERSION, MDMF_VERSION
+    mo = ctx.model(["hf names"])
+    if mo is None or mo[0] == "bad-op":
+        return
+    names = mo[0].split()
+    lines, impls, cases = [], [], []
+    for fmtname, fmt in (("SDMF", SDMF_VERSION), ("MDMF", MDMF_VERSION)):
+        with grid.Runtime(seed=23, policy="fifo") as rt:
+            g = grid.Grid(grid.fresh_dir("c10hf"), rt, num_servers=4, k=2, happy=1, n=4)
+            try:
+                c = g.clients[0]
+                node = rt.wait(c.create_mutable_file(MutableData(b"what does the signature cover? " * 3), version=fmt))
+                files = {sh: (srv, p) for (srv, sh, p) in g.share_files(node.get_storage_index())}
+                (srv0, path0) = files[0]
+                raw = open(path0, "rb").read()
+                fl = share_fields(raw[DATA_OFFSET:])
+                plen = SIGNED_PREFIX_LENGTH if fmt == SDMF_VERSION else MDMFHEADERWITHOUTOFFSETSSIZE
+                for name in names:
+                    if name not in fl:
+                        if name == "salt" and fmt == MDMF_VERSION:
+                            continue                 # MDMF has no IV in the prefix
+                        lines.append("hf " + name); impls.append("not-driven"); cases.append({"fmt": fmtname, "field": name})
+                        continue
+                    (a, b) = fl[name]
+                    signed = b <= plen
+                    pos = DATA_OFFSET + (b - 1 if name in ("offsets", "seqnum", "segsize", "datalen") else a)
+                    bit = 0x01
+                    with open(path0, "wb") as fh:
+                        fh.write(raw[:pos] + bytes([raw[pos] ^ bit]) + raw[pos + 1:])
+                    sm = rt.wait(fresh_node(c, node.get_readonly_uri()).get_servermap(MODE_CHECK))
+                    with open(path0, "wb") as fh:
+                        fh.write(raw)
+                    vm = sm.make_versionmap()
+                    mine = [v for v, shs in vm.items() if any(shn == 0 for (shn, _s, _t) in shs)]
+                    others = [v for v, shs in vm.items() if any(shn != 0 for (shn, _s, _t) in shs)]
+                    outcome = "rejected" if not mine else ("same" if mine[0] in others else "new")
+                    # component of verinfo: the field's bytes appear in the tuple (prefix bytes / offsets) of an intact share
+                    intact_v = others[0]
+                    in_verinfo = signed or name == "offsets"
+                    if name == "offsets":
+                        table = raw[DATA_OFFSET + a:DATA_OFFSET + b]
+                        vals = struct.unpack(">LLLLQQ" if fmt == SDMF_VERSION else ">QQQQQQQQ", table)
+                        in_verinfo = sorted(vals) == sorted(o for (_nm, o) in intact_v[8])
+                    elif signed:
+                        in_verinfo = raw[DATA_OFFSET + a:DATA_OFFSET + b] in intact_v[7]
+                    else:
+                        in_verinfo = len(raw[DATA_OFFSET + a:DATA_OFFSET + b]) >= 8 and any(
+                            isinstance(x, bytes) and raw[DATA_OFFSET + a:DATA_OFFSET + b][:16] in x for x in intact_v)
+                    lines.append("hf " + name)
+                    impls.append("signed=%s verinfo=%s map=%s" % (str(signed).lower(), str(bool(in_verinfo)).lower(), outcome))
+                    cases.append({"fmt": fmtname, "field": name})
+                    ctx.case("hf %s %s" % (fmtname, name))
+                    ctx.count("header-field:%s:%s" % (outcome, "signed" if signed else "unsigned"))
+            finally:
+                g.close()
+    ctx.compare("share fields: covered by the signature / part of verinfo / map update's reaction to an altered field", cases, impls, ctx.model(lines))
+
+
 def fixed_minimal_corpus(ctx):
     """One minimal, fully fixed instance of each random family that is the only catcher of some past
     change (nothing here draws from ctx.rng): the VERIF_CORPUS_ONLY run ends after this."""
@@ -1528,6 +1597,7 @@ def fixed_minimal_corpus(ctx):
     retrieve_loop_cases(ctx, 0, corpus=True)
     retrieve_tree_cases(ctx, 0, corpus=True)
     signature_cache_cases(ctx, 0, corpus=True)
+    header_field_cases(ctx)
 
 
 def run(ctx):
